@@ -309,6 +309,22 @@ def run(coro):
     return _LOOP.run_until_complete(coro)
 
 
+def run_debug(coro):
+    """Run a coroutine on a fresh event loop in asyncio DEBUG mode (asyncio.run(debug=True), python -X dev, an application's
+    --debug switch): the loop then checks its own API use (call_soon with a coroutine function, cross-thread calls) and
+    raises where the normal mode stays silent.  What the library promises does not depend on the loop's mode."""
+    loop = asyncio.new_event_loop()
+    loop.set_debug(True)
+    loop.slow_callback_duration = 3600.0
+    try:
+        return loop.run_until_complete(coro)
+    finally:
+        try:
+            loop.run_until_complete(loop.shutdown_asyncgens())
+        finally:
+            loop.close()
+
+
 def make_message(fields: tuple | list) -> Message:
     return Message(*fields)
 
